@@ -174,7 +174,9 @@ func (el EntryList) MarshalPacked() ([]byte, error) {
 		}
 	}
 
-	return buf.Bytes(), nil
+	// buf goes back to the pool and will be overwritten by the next caller:
+	// hand out a copy, not a view of its storage
+	return append([]byte(nil), buf.Bytes()...), nil
 }
 
 // Equal compares two EntryList objects and returns true if they have
